@@ -140,7 +140,7 @@ theorem insertRangeFwd_sat (cfg : Cfg) (c pos : Nat) (srcs : List (Src α)) (w :
         · intro e w' hs
           exact hs.insBasic hl hv
     · rw [if_neg (by simpa using hone)]
-      refine Res.sat_mono (appendRangeFwd_sat cfg c false srcs w hv hl hNmax haa (fun h => by cases h)) ?_ ?_
+      refine Res.sat_mono (appendRangeFwd_sat cfg c false srcs w hv hl hNmax (haa.srcs hv hl) (fun h => by cases h)) ?_ ?_
       · intro r w' ⟨hr, hap⟩
         refine ⟨by rw [hr, hend], hap.inserted hend, fun h => ?_⟩
         obtain ⟨i1, i2, i3, i4, _⟩ := hap.inplace (by simp; omega)
